@@ -42,13 +42,18 @@ class ImmutableKnotVector(tuple):
                 return False
         if degree is None:
             degree = 0
-            while vector[degree] == vector[degree + 1]:
+            while degree + 2 < lenght and vector[degree] == vector[degree + 1]:
                 degree += 1
         npts = lenght - degree - 1
         if not degree < npts:
             return False
-        knots = ImmutableKnotVector.__get_unique(vector[degree : npts + 1])
-        for knot in knots:
+        if vector[0] != vector[degree] or vector[npts] != vector[-1]:
+            return False
+        if vector.count(vector[0]) != degree + 1:
+            return False
+        if vector.count(vector[-1]) != degree + 1:
+            return False
+        for knot in vector:
             mult = vector.count(knot)
             if mult > degree + 1:
                 return False
@@ -75,6 +80,10 @@ class ImmutableKnotVector(tuple):
         return instance
 
     def __add__(self, nodes: Tuple[float]) -> ImmutableKnotVector:
+        umin, umax = self.limits
+        for node in nodes:
+            if node < umin or umax < node:
+                raise ValueError("Cannot insert nodes outside the interval")
         return self.__class__(sorted(list(self) + list(nodes)))
 
     def __sub__(self, nodes: Tuple[float]) -> ImmutableKnotVector:
